@@ -18,6 +18,7 @@ import (
 	"time"
 
 	netty "github.com/go-netty/go-netty"
+	"github.com/go-netty/go-netty/utils/pool/pbytes"
 	"nvharness/mock"
 	"nvharness/rt"
 )
@@ -97,6 +98,8 @@ func (o Op) String() string {
 		return fmt.Sprintf("cx:%d", o.N)
 	case "px":
 		return "px"
+	case "ps":
+		return "ps"
 	case "ia":
 		return "ia"
 	case "cw1", "cwv":
@@ -251,6 +254,21 @@ func runScenario(sc *Scenario, strat rt.Strategy) *rt.Controller {
 						}
 					case "mw":
 						err = ch.Write(cp[0])
+					case "ps":
+						// another user of the buffer pool: obtains buffers of every size class, scribbles on them,
+						// yields while holding them, scribbles again and gives them back (C10)
+						for r, size := range []int{1, 16, 700, 2048, 65536} {
+							b := pbytes.Get(size)
+							buf := (*b)[:cap(*b)]
+							for k := range buf {
+								buf[k] = 0xDD
+							}
+							c.Yield("ps")
+							for k := range buf {
+								buf[k] = 0xD0 + byte(r)
+							}
+							pbytes.Put(b)
+						}
 					}
 					return "ok"
 				}()
